@@ -23,7 +23,10 @@ RULE = ('case = seeded tree (<= 6 dirs, <= 14 files, hostile names, hidden files
         'dir symlinks, special files) + consistent Manifest layout (nested / split '
         'Manifests, 5 compression formats, duplicate entries, IGNOREs incl. '
         'look-alikes) + k in 0..3 mutations from %d classes + verified sub-path + '
-        'last_mtime in {None, older, newer, equal, +-0.25s}. Non-trivial = the model '
+        'last_mtime in {None, older, newer, equal, +-0.25s}; big = the same with <= 40 '
+        'dirs, 150 files, depth 12, <= 6 mutations; history = a matching tree re-verified '
+        'on the same and on a fresh loader after an in-place rewrite of a listed file. '
+        'Non-trivial = the model '
         'constrains the verdict and (k > 0 or sub-path/last_mtime non-default); '
         'distinct = hash of the materialised case.' % (
             len(gmutate.FS_CLASSES) + len(gmutate.MAN_CLASSES) + len(gmutate.ODD_CLASSES)))
@@ -34,9 +37,9 @@ ANCHORS = ['recursiveloader:ManifestRecursiveLoader.assert_directory_verifies',
            'cli:VerifyCommand.__call__']
 REQUIRED = ['recursiveloader:ManifestRecursiveLoader.assert_directory_verifies',
             'expect:accept', 'expect:reject', 'contract:path_starts_with',
-            'skipset_checked', 'cli_runs', 'keepgoing_runs']
+            'skipset_checked', 'cli_runs', 'keepgoing_runs', 'history_reverifications']
 ASSUMPTIONS = ['zones U1-U4, U10, U11 are unconstrained (see DESIGN.md 1.1)',
-               'trees are small; permission-based unreadability is C06']
+               'permission-based unreadability is C06']
 
 CLASSES = (gmutate.FS_CLASSES * 3 + gmutate.MAN_CLASSES * 2 + gmutate.ODD_CLASSES)
 N = {'quick': 3000, 'thorough': 150000}
@@ -294,6 +297,60 @@ def judge(ctx, root, case):
         elif constrained and (rc == 0) != lib_ok and not isinstance(rc, str):
             ctx.violation('cli-lib-disagree', 'CLI exit %r but library %s'
                           % (rc, 'succeeded' if lib_ok else 'failed'), case, detail)
+    if expect == 'accept' and last_mtime is None:
+        judge_history(ctx, root, case, res)
+
+
+def judge_history(ctx, root, case, res):
+    """History on one loader (and in one process): a matching tree verifies, then a
+    listed file is rewritten in place (same inode, size and timestamps), and the same
+    loader - and a fresh one - verify again: both must fail now."""
+    from gemato.recursiveloader import ManifestRecursiveLoader
+    sub = case['sub']
+    victims = []
+    for p, e in sorted(res.entries.items()):
+        if not mtext.comp_prefix(p, sub) or p in res.ignores or any(
+                mtext.comp_prefix(p, ig) for ig in res.ignores):
+            continue
+        if any(c.startswith('.') for c in p.split('/')):
+            continue
+        full = os.path.join(root, p)
+        if os.path.isfile(full) and not os.path.islink(full) and e['size'] > 0 \
+                and e['sums'] and os.path.basename(p) not in MAN_NAMES:
+            victims.append(p)
+    if not victims:
+        return
+    p = victims[len(victims) // 2]
+    full = os.path.join(root, p)
+    try:
+        m = ManifestRecursiveLoader(os.path.join(root, 'Manifest'), verify_openpgp=False)
+        if m.assert_directory_verifies(sub) is not True:
+            return
+    except Exception:
+        return
+    st = os.stat(full)
+    with open(full, 'rb') as f:
+        data = f.read()
+    with open(full, 'r+b') as f:
+        f.write(bytes((b + 1) % 256 for b in data))
+    os.utime(full, ns=(st.st_atime_ns, st.st_mtime_ns))
+    ctx.count('history_reverifications')
+    for which, loader in (('same-loader', m), ('fresh-loader', None)):
+        try:
+            if loader is None:
+                loader = ManifestRecursiveLoader(os.path.join(root, 'Manifest'),
+                                                 verify_openpgp=False)
+            r = loader.assert_directory_verifies(sub)
+        except Exception:
+            continue
+        ctx.violation('accepts-mismatch:after-inplace-rewrite:' + which,
+                      'a tree that verified was changed (listed file %r rewritten in '
+                      'place, same size and timestamps); verifying again with the %s '
+                      'returned %r' % (p, which.replace('-', ' '), r), case)
+        return
+
+
+MAN_NAMES = ['Manifest'] + ['Manifest.' + x for x in mtext.SUFFIXES]
 
 
 def gen_case(rng, root, big=False):
